@@ -213,7 +213,7 @@ claim("C16",
       "every used id at its point of use (cid redirection through hash maps), select arity.",
       "toposort()'s HashMap index / outer loop, lower_table_decl and the Lowerer's node_mapping are not under contract.")
 
-prop("C13", ["span_units"],
+prop("C13", ["span_units", "compose_errors"],
      not_covered="ariadne rendering (the quoted line), multi-file source ids, resolver / SQL-generation errors (their spans are copied from parser spans)")
 claim("C13",
       "PARTIAL. Proved on the real code: convert_lexer_error stores a span in CHARACTER units - the character positions of the byte offsets chumsky "
@@ -234,7 +234,7 @@ def _safety(name):
 
 
 _ALL_UNITS = ["take_range", "sort_take", "split_order", "window_frame", "dialect_select", "ident_quote", "ids_names", "toposort", "rq_tables",
-              "select_shape", "span_units", "sql_prec", "prql_prec", "literals", "set_ops", "desugar", "resolve_guards", "lex_strings", "limit_clause", "static_eval", "operator_tpl", "rel_names", "lower_cols", "vec_utils", "group_take", "flatten_sort", "star_exclude", "std_arity", "limit_select", "rq_shape", "star_cols", "func_env", "json_lits", "cte_define", "type_meet", "fmt_strings", "concat_ops", "sstring_query", "sstring_cols", "lineage_except", "sort_infer", "setop_pairs", "setops_reach", "tuple_unpack", "resolver_unwraps", "name_lookup", "frame_decls", "select_cols", "lower_transform", "sort_names", "positional_map", "fmt_interp", "datetime_lit", "lex_numbers", "rq_fold", "dialect_flags", "cid_inline", "module_names"]
+              "select_shape", "span_units", "sql_prec", "prql_prec", "literals", "set_ops", "desugar", "resolve_guards", "lex_strings", "limit_clause", "static_eval", "operator_tpl", "rel_names", "lower_cols", "vec_utils", "group_take", "flatten_sort", "star_exclude", "std_arity", "limit_select", "rq_shape", "star_cols", "func_env", "json_lits", "cte_define", "type_meet", "fmt_strings", "concat_ops", "sstring_query", "sstring_cols", "lineage_except", "sort_infer", "setop_pairs", "setops_reach", "tuple_unpack", "resolver_unwraps", "name_lookup", "frame_decls", "select_cols", "lower_transform", "sort_names", "positional_map", "fmt_interp", "datetime_lit", "lex_numbers", "rq_fold", "dialect_flags", "cid_inline", "module_names", "compose_errors"]
 
 
 def _c12_split_order(n):
